@@ -1,4 +1,18 @@
 """Per-property configuration of bin/check: proof modules (obligations) and correspondence streams."""
+import os as _os
+
+_VERIF = _os.path.dirname(_os.path.dirname(_os.path.abspath(__file__)))
+_MODEL = _os.path.join(_VERIF, "lean", ".lake", "build", "bin", "model")
+_HBIN = _os.path.join(_VERIF, "harness", "bin")
+
+
+def _race_build():
+    """second copy of vdiff built with the race detector (needs cgo; works offline here: gcc + the toolchain's race runtime).
+    For a scratch copy of the repository (VERIF_REPO) bin/check has written harness/go.alt.mod before this command runs."""
+    repo = _os.environ.get("VERIF_REPO", "/repo")
+    flags = "-mod=mod" + (" -modfile=go.alt.mod" if _os.path.realpath(repo) != "/repo" else "")
+    return {"cmd": ["go", "build", "-race", "-tags", "verif", "-o", _os.path.join(_HBIN, "vdiff-race"), "./cmd/vdiff"],
+            "env": {"CGO_ENABLED": "1", "GOFLAGS": flags}}
 
 TRUSTED_COMMON = [
     "Lean 4.33.0 kernel (thorough tier: re-checked by leanchecker); axioms per theorem as printed by #print axioms, allowed: propext, Classical.choice, Quot.sound; no sorry/admit/native_decide/bv_decide/own axioms (source audit on every run)",
@@ -156,5 +170,33 @@ PROPS = {
             "runtime.GOARCH is a parameter of the model (the empty name); only amd64 is executed on this host",
             "the generator arch/mk_syscalls_linux.go cannot download kernel sources offline: its ABI-column filter is checked as a regenerated literal and by executing a copy (base URL redirected to a local five-row fixture), not by regenerating zsyscalls.go",
         ],
+    },
+    "C13": {
+        "lean": ["Seccomp.Proofs.C13"],
+        "go_builds": [_race_build()],
+        "streams": [
+            {"stream": "text", "profile": "mix", "quick": 4000, "thorough": 150000, "thorough_seeds": 2, "corpus": "text"},
+            {"stream": "purity", "profile": "mix", "quick": 400, "thorough": 6000, "thorough_seeds": 2, "corpus": "purity", "timeout": 3000},
+            # the same stream with the race detector: a "WARNING: DATA RACE" of a child is a failing input
+            {"tool": "vdiff-race", "stream": "purity", "profile": "race", "quick": 80, "thorough": 2500, "thorough_seeds": 2, "timeout": 3000,
+             "args": ["-stream", "purity", "-profile", "race", "-model", _MODEL, "-corpus", _os.path.join(_VERIF, "corpus", "purity")]},
+        ],
+        "trusted": ["the effect summary Gen/Purity.lean is syntactic: static call graph over go/types Uses (calls through interfaces/function values and fmt's use of String methods are not followed), no alias analysis beyond 'fresh local slice'; the package's use of package unsafe is confined to init (assembler.go) and constants",
+                    "Go memory model and race detector (thorough and quick tier run a -race build of the harness); map iteration order is modelled as an arbitrary permutation",
+                    "encoding/binary.LittleEndian/BigEndian (read by LdHi/LdLo) are never written by anyone"],
+        "assumptions": ["PARTIAL: freedom from data races under all schedules is monitored (up to 16 goroutines, copies sharing slices, -race build), not proved",
+                        "the model equals the code on the generated policies (exact instruction lists); determinism of the model is trivial, determinism of the code is the tie plus compile_pure"],
+    },
+    "C14": {
+        "lean": ["Seccomp.Proofs.C14"],
+        "streams": [
+            {"stream": "text", "profile": "mix", "quick": 6000, "thorough": 300000, "thorough_seeds": 2, "corpus": "text"},
+            {"stream": "config", "profile": "mix", "quick": 1500, "thorough": 40000, "thorough_seeds": 2, "corpus": "config", "timeout": 3000},
+        ],
+        "trusted": ["unicode.ToLower is modelled for every code point from the toolchain's unicode.CaseRanges (regenerated into Gen/Names.lean by the same toolchain that builds the code under test; Go's bisection over the table is modelled as first match); Go's UTF-8 decoder is modelled by Text.decodeAll; both are compared on random byte strings on every run (TXT lo/ua/uo requests)",
+                    "the documented names/constants (README, cmd/sandbox/seccomp.yml, linux/seccomp.h) are written down in Proofs/C14.lean and, independently, in harness/cmd/vdiff/stream_text.go"],
+        "assumptions": ["PARTIAL: go-ucfg (yaml and json packages), gopkg.in/yaml.v2 and encoding/json are exercised (exactly as cmd/sandbox parsePolicy uses them), not modelled",
+                        "go-ucfg's json package decodes numbers as float64: 64-bit operands above 2^53 are rounded there (2^64-1 becomes 2^63). This third-party path is outside the documented YAML path; the harness predicts the rounding exactly and counts it (distribution tag ucfg-json:float64-rounding…); JSON text read through the YAML loader is exact",
+                        "policies with an empty condition list or without default_action are outside the generated set (the loader rejects `arguments: []`; a missing default_action reads as kill_thread)"],
     },
 }
